@@ -30,7 +30,10 @@ from .core import AnalysisError, FuncInfo, Index, dotted, unparse
 
 S_MAX = 4102444800          # 2100-01-01T00:00:00Z
 F_MAX = 999_999
-BOUNDS = {"S": (0, S_MAX), "F": (0, F_MAX)}
+BOUNDS = {"S": (0, S_MAX), "F": (0, F_MAX), "D": (0, F_MAX)}
+# "D": the fraction digits of the string read as an integer.  A PV / ISO
+# timestamp may carry 1..6 fraction digits, so D == F only for exactly six
+# digits; D is therefore a component of its own (never equal to F).
 
 
 def frac(x: Any) -> Fraction:
@@ -64,7 +67,7 @@ class Num:
 
     def show(self) -> str:
         parts = []
-        for k in ("S", "F", "1"):
+        for k in ("S", "F", "D", "1"):
             c = self.coef(k)
             if c:
                 parts.append(f"{c}" + ("" if k == "1" else f"*{k}"))
@@ -137,6 +140,14 @@ class Tz:
 
 
 @dataclass
+class Seq:
+    """A tuple/list of abstract values (result of partition/split or a
+    tuple display).  ``exact_len``: the length holds for every input."""
+    items: list
+    exact_len: bool = True
+
+
+@dataclass
 class Const:
     value: Any
 
@@ -186,6 +197,20 @@ class TimeInterp:
             elif isinstance(st, ast.AnnAssign) and st.value is not None \
                     and isinstance(st.target, ast.Name):
                 self.env[st.target.id] = self.ev(st.value)
+            elif isinstance(st, ast.Assign) and len(st.targets) == 1 \
+                    and isinstance(st.targets[0], (ast.Tuple, ast.List)) \
+                    and all(isinstance(t, ast.Name)
+                            for t in st.targets[0].elts):
+                vals = self.ev(st.value)
+                if not (isinstance(vals, Seq) and (
+                        vals.exact_len or isinstance(st.value, ast.Tuple))
+                        and len(vals.items) == len(st.targets[0].elts)):
+                    raise AnalysisError(
+                        f"{self.fi.qualname}:{st.lineno}: unpacking of "
+                        f"'{unparse(st.value)}' is outside the vocabulary "
+                        "(length not known)")
+                for t, v in zip(st.targets[0].elts, vals.items):
+                    self.env[t.id] = v  # type: ignore[attr-defined]
             elif isinstance(st, ast.Return) and st.value is not None:
                 return self.ev(st.value)
             else:
@@ -222,8 +247,34 @@ class TimeInterp:
             return self._binop(e)
         if isinstance(e, ast.Call):
             return self._call(e)
+        if isinstance(e, (ast.Tuple, ast.List)):
+            return Seq([self.ev(x) for x in e.elts])
+        if isinstance(e, ast.BoolOp) and isinstance(e.op, ast.Or) \
+                and len(e.values) == 2:
+            a, b = self.ev(e.values[0]), self.ev(e.values[1])
+            # "<digits> or 0" / "<digits> or '0'": the empty fraction reads 0
+            if isinstance(a, Str) and a.kind.startswith("frac") and (
+                    (isinstance(b, Num) and b.is_const()
+                     and not b.coef("1"))
+                    or (isinstance(b, Const) and b.value in ("0", ""))):
+                return a
         if isinstance(e, ast.Subscript):
             base = self.ev(e.value)
+            if isinstance(base, Seq) and isinstance(e.slice, ast.Constant) \
+                    and isinstance(e.slice.value, int):
+                i = e.slice.value
+                if -len(base.items) <= i < len(base.items) and (
+                        base.exact_len or i >= 0):
+                    if not base.exact_len and i > 0:
+                        self.hazards.append((
+                            e, f"'{unparse(e)}' : a timestamp without a "
+                               "fraction has no such element"))
+                    return base.items[i]
+            if isinstance(base, Str) and base.kind in ("frac6",) \
+                    and isinstance(e.slice, ast.Slice) \
+                    and e.slice.lower is None and e.slice.step is None \
+                    and unparse(e.slice.upper) == "6":
+                return base
             if isinstance(base, Str) and isinstance(e.slice, ast.Slice) \
                     and e.slice.lower is None and e.slice.step is None \
                     and isinstance(e.slice.upper, ast.UnaryOp) \
@@ -365,6 +416,15 @@ class TimeInterp:
             v = self.ev(e.args[0])
             if isinstance(v, Num):
                 return self._to_int(v, e)
+            if isinstance(v, Str) and v.kind == "frac6":
+                return Num({"F": Fraction(1)}, "int", True)
+            if isinstance(v, Str) and v.kind == "frac":
+                self.hazards.append((
+                    e, f"'{unparse(e)}' reads the fraction digits as an "
+                       "integer: k digits denote D * 10^-k seconds, which is "
+                       "the microsecond count only when k == 6 ('.5' is half "
+                       "a second, not 5 microseconds)"))
+                return Num({"D": Fraction(1)}, "int", True)
         if name == "round" and len(e.args) == 1:
             v = self.ev(e.args[0])
             if isinstance(v, Num):
@@ -386,6 +446,8 @@ class TimeInterp:
                 zone = "utc" if s.kind == "iso+00:00" else "naive_wall"
                 return DT(Num({"S": Fraction(1)}), Num({"F": Fraction(1)}),
                           zone)
+            if isinstance(s, Str) and s.kind == "iso-seconds":
+                return DT(Num({"S": Fraction(1)}), Num({}), "naive_wall")
             if isinstance(s, Str) and s.kind == "pv" and s.z:
                 # Python >= 3.11 parses a trailing 'Z' as UTC
                 return DT(Num({"S": Fraction(1)}), Num({"F": Fraction(1)}),
@@ -512,6 +574,19 @@ class TimeInterp:
                 return Str("iso", z=False)
             if isinstance(a1, Const) and a1.value == "+00:00":
                 return Str("iso+00:00", z=False)
+        if s.kind == "iso" and isinstance(a0, Const) and a0.value == ".":
+            if m in ("partition", "rpartition"):
+                return Seq([Str("iso-seconds", z=False), Const("."),
+                            Str("frac", z=False)])
+            if m in ("split", "rsplit"):
+                # one element only when the string carries no fraction
+                return Seq([Str("iso-seconds", z=False),
+                            Str("frac", z=False)], exact_len=False)
+        if s.kind == "frac" and m == "ljust" and len(e.args) == 2:
+            a1 = self.ev(e.args[1])
+            if isinstance(a0, Num) and a0.is_const() and a0.coef("1") == 6 \
+                    and isinstance(a1, Const) and a1.value == "0":
+                return Str("frac6", z=False)
         raise AnalysisError(f"string method .{m}({unparse(e)}) unsupported")
 
     def _dt_method(self, d: DT, m: str, e: ast.Call) -> Any:
